@@ -42,7 +42,9 @@ RULE = ("Hypothesis draws (hash-map variable formats and defaults, Structure "
         "layouts, a history of 3-25 operations from both sides); non-trivial "
         "= the history has a value written on one side and read on the other "
         "for a variable or a Dict entry; distinct by (formats, layouts, "
-        "operation kind sequence)")
+        "operation kind sequence); plus enumerated families: 4 byte values "
+        "stored into 8 byte cells after big ones, hash maps with 100-513 "
+        "variables")
 ASSUMPTIONS = [
     "the program side is a command interpreter program built with the DSL: "
     "one run per operation, selected through array-map control variables",
